@@ -91,6 +91,13 @@ class Ctx:
         t0 = time.time()
         self.nq += 1
         r = s.check()
+        if r == z3.unknown:
+            # once more with four times the budget before the path is given up as inconclusive (a loaded machine must not
+            # turn a feasibility question into exit 2)
+            s.set("timeout", 4 * self.fresh_timeout_ms)
+            self.nq += 1
+            self.fresh_retried = getattr(self, "fresh_retried", 0) + 1
+            r = s.check()
         self.t_solver += time.time() - t0
         return r
 
@@ -163,6 +170,7 @@ class Ctx:
 
 
 _CTX: Ctx | None = None
+_DIV_IGNORE = 0  # > 0 inside np.errstate(divide= / invalid= / all="ignore") as entered by the code under analysis
 
 
 def ctx() -> Ctx:
@@ -483,6 +491,15 @@ class SymReal(numbers.Real):
         o = self._other(o)
         if o is None:
             return NotImplemented
+        if _DIV_IGNORE:
+            # inside np.errstate(divide/invalid="ignore"): the code announces that it copes with zero divisors itself, so the
+            # divisor is not assumed non-zero; the quotient carries the not-a-number flag where the divisor is zero (inf and nan
+            # are not told apart: both are "not a number" here)
+            if o.const is not None and o.const != 0 and o.nan is None:
+                return self._mk(o, self.t / o.t, False)
+            zero = z3.BoolVal(True) if (o.const is not None and o.const == 0) else o.t == 0
+            safe = z3.RealVal(0) if (o.const is not None and o.const == 0) else z3.If(zero, z3.RealVal(0), self.t / o.t)
+            return SymReal(safe, nl=True, nan=_or(_or(self.nan, o.nan), zero))
         if o.const is not None and o.nan is None:
             if o.const == 0:
                 raise ModelGap("division by literal zero on a symbolic value")
